@@ -213,6 +213,16 @@ def decide_engine(pid, spec, tier, seed, theorems, t0):
         distribution={k: v for k, v in sorted(res['dist'].items())},
         operations={k: v for k, v in sorted(res['stats'].items()) if k.startswith(('ok:', 'err:', 'log:', 'crash:'))},
         samples=res['samples'][:3])
+    if tier == 'thorough' and pid == 'C07':
+        # how much of state.py the stream that ties the model to the code actually executes
+        try:
+            import subprocess
+            import sys as _sys
+            out = subprocess.run([_sys.executable, os.path.join(os.path.dirname(__file__), 'linecov.py'), '400', str(seed)],
+                                 capture_output=True, text=True, timeout=3000)
+            coverage['implementation_line_coverage'] = json.loads(out.stdout)
+        except Exception as e:  # noqa: BLE001
+            coverage['implementation_line_coverage'] = {'error': repr(e)}
     fw.write_evidence(pid, tier, seed, coverage, ENGINE_ASSUME, wall, len(fresh) + (1 if hits and not fresh else 0))
     print(f'{pid}: theorems={len(theorems)} cases={res["cases"]} lines={res["lines"]} '
           f'diffs(slice/other)={len(hits)}/{other} monitor(new/known)={len(fresh)}/{len(matched)} '
